@@ -63,8 +63,9 @@ def systematic(i):
     n = i % 4
     fault_at = (i // 4) % 40
     kind = (i // 160) % 3       # crash / eio / enospc (the 'short' kind is drawn in the seeded part)
-    #       nimg nfiles  file names   sizes (100 bytes; index.wtml 300)   inject fault_at kind [no second fault]
-    return [0, n] + [0] * n + [2] * (n + 1) + [0, fault_at, kind, 0]
+    #       nimg nfiles  file names   sizes (100 bytes; index.wtml 300)   no sub-folder, fresh manager per attempt
+    #       inject fault_at kind [no second fault]
+    return [0, n] + [0] * n + [2] * (n + 1) + [0, 0] + [0, fault_at, kind, 0]
 
 
 IO_ERRNOS = [errno.EIO, errno.ESTALE, errno.ETIMEDOUT, errno.EAGAIN, errno.EBUSY, errno.EACCES, errno.EINTR, errno.ECONNRESET, errno.EROFS, errno.EDQUOT]
@@ -361,7 +362,7 @@ def install():
         c = ctl()
         r = orig_put(self, *path, source=source)
         if c is not None and c.active:
-            c.puts.append((path[0], path[-1]))
+            c.puts.append((path[0], "/".join(path[1:])))
             c.point("after_put %s" % "/".join(path))
         return r
 
@@ -396,6 +397,7 @@ def run_one(ch, env):
         f.write("source_type: verif-stub\nverif_stub: {}\n")
     nimg = 1 + ch.draw(3, p0=0.5, kind="nimg")
     images = {}
+    has_subfolder = []
     for i in range(nimg):
         uid = ("img0", "img1", "img10")[i]      # one id is a prefix of another
         nother = ch.draw(7, kind="nfiles")
@@ -409,9 +411,17 @@ def run_one(ch, env):
             if n == "index.wtml" and size == 0:
                 size = 300
             files[n] = file_bytes(uid, n, size)
+        # one image in eight has a sub-folder with files of its own (toasty as it stands refuses such a layout with an
+        # error before anything of the image's index is published; an implementation that accepts it has to keep the
+        # index last among ALL files of the image)
+        if ch.draw(8, kind="image_with_subfolder") == 7:
+            for n in ("tiles/L1X0Y0.png", "tiles/L1X1Y0.png", "tiles/deep/x.bin")[:1 + ch.draw(3, kind="n_nested")]:
+                files[n] = file_bytes(uid, n, (100, 5000, 70000)[ch.draw(3, kind="nested_size")])
+            has_subfolder.append(uid)
         images[uid] = files
         os.makedirs(os.path.join(work, "approved", uid))
         for n, b in files.items():
+            os.makedirs(os.path.dirname(os.path.join(work, "approved", uid, n)), exist_ok=True)
             with open(os.path.join(work, "approved", uid, n), "wb") as f:
                 f.write(b)
     StubSource.ids = sorted(images)
@@ -426,6 +436,11 @@ def run_one(ch, env):
     try:
         max_faulty = 5
         attempt = 0
+        # one history in three keeps its PipelineManager object across attempts that ended with an error (a long-lived
+        # process that retries); a crash always means a new process, hence a new object
+        reuse_mgr = ch.draw(3, kind="reuse_manager") == 2
+        mgr = None
+        outcome = None
         while violation is None:
             attempt += 1
             faulty_allowed = attempt <= max_faulty
@@ -443,10 +458,15 @@ def run_one(ch, env):
             if pre_index:
                 c.probes["rerun_over_store_with_index"] = c.probes.get("rerun_over_store_with_index", 0) + 1
             c.log.append("ATTEMPT %d fault_at=%s kind=%s" % (attempt, fault_at, kind))
+            prev_outcome = outcome
             outcome = "completed"
             c.active = True
             try:
-                mgr = tp.PipelineManager(work)
+                if mgr is None or not reuse_mgr or prev_outcome == "crashed":
+                    mgr = tp.PipelineManager(work)
+                elif attempt > 1:
+                    c.probes["manager_object_reused"] = c.probes.get("manager_object_reused", 0) + 1
+                outcome = "completed"
                 mgr.publish()
             except Crash:
                 outcome = "crashed"
@@ -459,6 +479,13 @@ def run_one(ch, env):
                 outcome = "raised %r" % (e,)
             finally:
                 c.active = False
+            if outcome.startswith("raised") and has_subfolder and c.fired is None:
+                # refusing an image layout loudly is safe; what was published so far must still be consistent
+                c.probes["subfolder_layout_refused"] = c.probes.get("subfolder_layout_refused", 0) + 1
+                res["config"]["attempts"].append({"fault_at": fault_at, "kind": kind, "fired": None, "outcome": outcome[:120]})
+                what = "after attempt %d (publish refused the layout: %s)" % (attempt, outcome[:80])
+                violation = check_invariants(images, work, store, what) or check_refresh(pcli, images, work, store, what)
+                break
             if outcome.startswith("raised"):
                 violation = viol(PROP, "publish-raised", "attempt %d: publish raised although no fault was injected into it (or raised something other than the injected fault): %s" % (attempt, outcome))
                 break
